@@ -30,6 +30,55 @@ type c17Case struct {
 	Debug  bool     `json:"debug,omitempty"`
 	Req    vlib.Req `json:"request,omitempty"`
 	Big    *c17Big  `json:"big,omitempty"`
+	// Preset > 0: what the response header map holds before the middleware runs (c17Presets)
+	Preset int `json:"response_header_map_before,omitempty"`
+}
+
+// c17WrittenNames: the response-header names a CORS middleware writes.
+var c17WrittenNames = []string{"Vary", "Access-Control-Allow-Origin", "Access-Control-Allow-Credentials", "Access-Control-Expose-Headers", "Access-Control-Allow-Methods", "Access-Control-Allow-Headers", "Access-Control-Max-Age", "Access-Control-Allow-Private-Network"}
+
+// c17Presets: states of the response header map that earlier links of a handler chain leave behind (a filter that
+// removed every value, a recycled map, keys written without canonicalisation).
+var c17Presets = []func(h http.Header){nil,
+	func(h http.Header) {
+		for _, n := range c17WrittenNames {
+			h[n] = nil
+		}
+	},
+	func(h http.Header) {
+		for _, n := range c17WrittenNames {
+			h[n] = []string{}
+		}
+	},
+	func(h http.Header) {
+		for _, n := range c17WrittenNames {
+			h[n] = make([]string, 0, 4)
+		}
+	},
+	func(h http.Header) {
+		for _, n := range c17WrittenNames {
+			h[n] = []string{""}
+		}
+	},
+	func(h http.Header) {
+		for _, n := range c17WrittenNames {
+			h[n] = []string{"*"}
+		}
+	},
+	func(h http.Header) {
+		for _, n := range c17WrittenNames {
+			h[n] = []string{"a", "", "b"}
+		}
+	},
+	func(h http.Header) {
+		for _, n := range c17WrittenNames {
+			h[strings.ToLower(n)] = []string{"lower"}
+			h[strings.ToUpper(n)] = nil
+		}
+	},
+	func(h http.Header) { h["Vary"] = nil },
+	func(h http.Header) { h["Vary"] = []string{} },
+	func(h http.Header) { h["Vary"], h["Access-Control-Allow-Origin"] = []string{"*"}, nil },
 }
 
 func c17Judge(k c17Case) *vlib.Failure {
@@ -108,7 +157,11 @@ func c17Judge(k c17Case) *vlib.Failure {
 			hdr[k.Big.Header] = lines
 			req.Hdr = hdr
 		}
-		m.Wrap(http.HandlerFunc(func(http.ResponseWriter, *http.Request) {})).ServeHTTP(vlib.NewRec(), req.HTTP())
+		rec := vlib.NewRec()
+		if k.Preset > 0 {
+			c17Presets[k.Preset](rec.H)
+		}
+		m.Wrap(http.HandlerFunc(func(http.ResponseWriter, *http.Request) {})).ServeHTTP(rec, req.HTTP())
 	case "reentrant":
 		cfg := k.Cfg.Config()
 		m, err := cors.NewMiddleware(cfg)
@@ -446,6 +499,24 @@ func checkC17(c *vlib.Ctx) (string, string) {
 			tryReq(vlib.Req{Method: "GET", Hdr: h}, nil)
 		}
 	})
+	// unusual states of the response header map before the middleware runs, for every kind of request
+	for _, r := range []vlib.Req{{Method: "GET"}, {Method: "OPTIONS"}, {Method: "GET", Hdr: map[string][]string{"Origin": {"https://a.b"}}}, {Method: "GET", Hdr: map[string][]string{"Origin": {"https://denied.example"}}},
+		{Method: "OPTIONS", Hdr: map[string][]string{"Origin": {"https://a.b"}}},
+		{Method: "OPTIONS", Hdr: map[string][]string{"Origin": {"https://a.b"}, "Access-Control-Request-Method": {"PUT"}, "Access-Control-Request-Headers": {"x-a"}}},
+		{Method: "OPTIONS", Hdr: map[string][]string{"Origin": {"https://a.b"}, "Access-Control-Request-Method": {"PUT"}, "Access-Control-Request-Headers": {"x-a"}, "Access-Control-Request-Private-Network": {"true"}}},
+		{Method: "OPTIONS", Hdr: map[string][]string{"Origin": {"https://a.b"}, "Access-Control-Request-Method": {"DELETE"}}},
+		{Method: "OPTIONS", Hdr: map[string][]string{"Origin": {"https://a.b"}, "Access-Control-Request-Method": {"PUT"}, "Access-Control-Request-Headers": {"x-zz"}}},
+		{Method: "OPTIONS", Hdr: map[string][]string{"Origin": {"https://denied.example"}, "Access-Control-Request-Method": {"PUT"}}}} {
+		for p := 1; p < len(c17Presets); p++ {
+			for _, l := range rcfgs {
+				for _, d := range []bool{false, true} {
+					c.Transitions.Add(1)
+					ck.Try(c17Case{Kind: "request", Cfg: l, Debug: d, Req: r, Preset: p})
+				}
+			}
+			c.States.Add(1)
+		}
+	}
 	// long traffic: 300 distinct allowed origins and 300 near misses coming back at several distances, on one middleware
 	// per configuration kind and debug mode (fixed-size memos and rings overflow only after they have filled up)
 	for _, l := range []CfgLit{
